@@ -330,6 +330,22 @@ impl MintBuilder {
         Ok(mint)
     }
 
+    /// The key hashes the minting script sources say will sign: the declared signers of a source,
+    /// or every key hash of an inline native script when nothing was declared for it.
+    pub(crate) fn get_required_signers(&self) -> Ed25519KeyHashes {
+        let mut set = Ed25519KeyHashes::new();
+        for script_mint in self.mints.values() {
+            let signers = match script_mint {
+                ScriptMint::Native(native_mints) => native_mints.script.required_signers(),
+                ScriptMint::Plutus(plutus_mints) => plutus_mints.script.get_required_signers(),
+            };
+            if let Some(signers) = signers {
+                set.extend_move(signers);
+            }
+        }
+        set
+    }
+
     pub fn get_native_scripts(&self) -> NativeScripts {
         let mut native_scripts = Vec::new();
         for script_mint in self.mints.values() {
